@@ -206,16 +206,21 @@ class P(Prop):
                 "extra ordinates ignored, near-zero-length segments skipped, strict < minimum, UnboundLocalError); core/track.py Track.getX() / getY() on 3D "
                 "positions (ENU / Geo / ECEF: only getX, getY are read); algo/mapping.py __projOnTrack (ENUCoords(xproj, yproj, 0), altitudes never read), "
                 "mapOnTrack with its dispatch on the first argument (coordinate / track of queries, dist and edge columns); Float instance, bit patterns")
-    rule = ("exhaustive lattice scopes, then random polylines of 2..5 (one in eight: 6..30) vertices built from oblique / horizontal / vertical / zero-length / "
-            "collinear (forward and backward) / back-to-an-earlier-vertex steps in every direction, on an integer lattice (exact in double arithmetic) and on "
-            "two-decimal coordinates (transfer stream); queries beside a segment, beyond its ends, on it, at a vertex, far away, anywhere; entry points "
-            "proj_segment, proj_polyligne, __projOnTrack, mapOnTrack(coord), mapOnTrack(track); argument forms list / tuple / numpy float array / numpy int "
-            "array / list of ints, Yp longer or shorter than Xp; positions ENUCoords / GeoCoords / ECEFCoords with altitudes flat, equal on track and query, "
-            "only on the track, only on the query, varying, NaN (the projection is planimetric: every clause is checked in the (X, Y) plane); sequences on ONE "
-            "track object: project, modify in place (vertex moved, whole track shifted, vertex appended, object replaced), project again. "
+    rule = ("exhaustive lattice scopes, then random polylines of 2..5 (one in nine: 6..30, one in eighty: 31..120) vertices built from oblique / horizontal / "
+            "vertical / zero-length / collinear (forward and folding back) / back-to-an-earlier-vertex steps in every direction. Streams: integer lattice (exact in "
+            "double arithmetic), two-decimal coordinates, longitudes / latitudes with 5 decimals around (2.35, 48.85), projected coordinates around "
+            "(650000, 6860000), and 'nearaxis' (two-decimal, vertical / horizontal steps off by 0..1e6 ulps, very short segments 1e-17..1e-3 around the 1e-16 skip "
+            "threshold). Queries beside a segment, beyond its ends, on it, at a vertex, far away, anywhere. Entry points proj_segment, proj_polyligne, "
+            "__projOnTrack, mapOnTrack(coord), mapOnTrack(track); argument forms list / tuple / numpy float array / numpy int array / list of ints for the "
+            "polyline, float / numpy scalar / int for the query, Yp longer or shorter than Xp; positions ENUCoords / GeoCoords / ECEFCoords with altitudes flat, "
+            "equal on track and query, only on the track, only on the query, varying, NaN (the projection is planimetric: every clause is checked in the (X, Y) "
+            "plane); sequences on ONE track object: project, modify in place (vertex moved, whole track shifted, vertex appended, object replaced), project "
+            "again — each projection checked against the geometry of that moment. Track objects are never recycled within a process (no identity reuse). "
             "non-trivial = the polyline has at least one segment of non-zero length. Outside the property's domain (an error is accepted there): "
             "proj_segment on a zero-length segment, a polyline all of whose vertices coincide (up to the 1e-16 under which proj_polyligne skips a segment), "
-            "a Yp shorter than Xp.")
+            "a Yp shorter than Xp. Failing answers are excused only inside the listed classes: vertical-segment (D16, also its numpy form inf/nan and segments "
+            "that are vertical up to rounding, where the foot built through (0, -c / b) loses its ordinate) and horizontal-segment-fp (D17, also segments "
+            "horizontal up to 64 ulps).")
     trusted = ["math.sqrt / Float.sqrt correctly rounded; the sentinel 1e400 (+inf) modelled as 'no current minimum'"]
 
     def setup(self):
